@@ -337,6 +337,12 @@ func C17(ctx *core.Ctx) {
 				if base, ok := LoadedFrom(m, "requestHeaders"); ok && ssax.Strip(base) == ssa.Value(al) {
 					return true
 				}
+				if cc, isCall := ssa.Value(al).(*ssa.Call); isCall {
+					// al is a helper constructor call: m is the argument it stores as the request headers
+					if a := ctorFieldArg(cc, "requestHeaders"); a != nil && ssax.Strip(a) == m {
+						return true
+					}
+				}
 				if refs := m.Referrers(); refs != nil {
 					for _, u := range *refs {
 						if st, ok := u.(*ssa.Store); ok && ssax.Strip(st.Val) == m {
@@ -427,6 +433,39 @@ func C17(ctx *core.Ctx) {
 	for _, fn := range cloners {
 		fname := ssax.Name(fn)
 		ssax.Instrs(fn, func(in ssa.Instruction) {
+			// a clone built through a helper constructor of the package: its fields are the call's arguments
+			if cc, isCall := in.(*ssa.Call); isCall && ssax.TypeNamed(cc.Type(), "", "FContextImpl") && FreshBase(cc) {
+				for _, mf := range mapFields {
+					construct := fname + " › clone field " + mf
+					init := ctorFieldArg(cc, mf)
+					if init == nil {
+						ctx.Violate("C17.R5", construct, r.IPos(cc), "map field left nil in the clone: the first Add… on the clone panics and the clone does not start with equal "+mf)
+						continue
+					}
+					init = ssax.Strip(init)
+					if _, isMake := init.(*ssa.MakeMap); isMake {
+						ctx.Discharge("C17.R5", construct, r.IPos(cc), "fresh make")
+						continue
+					}
+					if c, ok := CallValue(init); ok {
+						targets := r.Resolve(c)
+						if c.Static != nil {
+							targets = []*ssa.Function{c.Static}
+						}
+						all := len(targets) > 0
+						for _, t := range targets {
+							if !returnsFreshMap(t) {
+								all = false
+							}
+						}
+						ctx.Check(all, "C17.R5", construct, r.IPos(cc), "initialised from "+c.ShortName()+"(), every implementation of which returns a freshly made copy",
+							"initialised from "+c.ShortName()+"(), which does not return a fresh copy: clone and original share the map")
+						continue
+					}
+					ctx.Violate("C17.R5", construct, r.IPos(cc), "initialised from "+init.String()+" — not a copy: later changes on either side are visible to the other")
+				}
+				return
+			}
 			al, ok := in.(*ssa.Alloc)
 			if !ok || !ssax.TypeNamed(al.Type(), "", "FContextImpl") {
 				return
@@ -601,4 +640,40 @@ func c17OpIDNotOverwritten(ctx *core.Ctx, r *RT, gen *ssa.Function, opidConst st
 				"request headers are copied under arbitrary keys onto a context that already has its fresh op id, without excluding the reserved op-id header: the copy carries the source's op id, so the clone (and every sibling clone) shares it")
 		}
 	}
+}
+
+// ctorFieldArg: for a call of a helper constructor (a function of the package
+// that returns a struct it allocates), the value that ends up in the given
+// field: the argument bound to the parameter the constructor stores there, or
+// the value the constructor itself stores.
+func ctorFieldArg(call *ssa.Call, field string) ssa.Value {
+	g := call.Call.StaticCallee()
+	if g == nil || !allocatorFns[g] {
+		return nil
+	}
+	var out ssa.Value
+	ssax.Instrs(g, func(in ssa.Instruction) {
+		st, ok := in.(*ssa.Store)
+		if !ok {
+			return
+		}
+		fa, ok := st.Addr.(*ssa.FieldAddr)
+		if !ok || fieldName(fa) != field {
+			return
+		}
+		if _, isAl := ssax.Strip(fa.X).(*ssa.Alloc); !isAl {
+			return
+		}
+		v := ssax.Strip(st.Val)
+		if p, isP := v.(*ssa.Parameter); isP {
+			for i, gp := range g.Params {
+				if gp == p && i < len(call.Call.Args) {
+					out = call.Call.Args[i]
+				}
+			}
+			return
+		}
+		out = v
+	})
+	return out
 }
